@@ -337,6 +337,34 @@ class MaskGt(Op):
         return f.mask(greater=a['thr'])
 
 
+class MaskWhere(Op):
+    """mask(where=<boolean array of the shape of the masked variable M>):
+    one more cell masked (which one is symbolic)"""
+    name = 'mask(where)'
+
+    def applicable(self, spec):
+        return any(v.name == 'M' for v in spec.vars)
+
+    def _size(self, spec):
+        v = [v for v in spec.vars if v.name == 'M'][0]
+        n = 1
+        for d in v.dims:
+            n *= spec.dimlen(d)
+        return n
+
+    def args(self, ctx, spec):
+        return {'k': ctx.int('k', 0, self._size(spec) - 1)}
+
+    def conc(self, inputs, spec):
+        return {'k': _g(inputs, 'k')}
+
+    def run(self, f, f2, a, env):
+        import numpy as real_np
+        w = real_np.zeros(f.variables['M'].shape, dtype=bool)
+        w.flat[int(a['k'])] = True
+        return f.mask(where=w)
+
+
 class Eval(Op):
     def __init__(self, expr, copyall=False, tag=''):
         self.expr, self.copyall = expr, copyall
@@ -473,7 +501,7 @@ def catalogue(tier):
                     ApplyRed(d, 'min'), ApplyRed(d, 'std')]
     ops += [SlicePoints(), Subset(False), Subset(True), RenameVar(),
             RenameDim(), InsertDim(), InsertDim(True), RemoveSingleton(),
-            RemoveSingleton(True), Reorder(), MaskGt(),
+            RemoveSingleton(True), Reorder(), MaskGt(), MaskWhere(),
             Eval('C = A * 2'), Eval('C = A * 2', True), Eval('C = A'),
             Eval('A = A[::-1]'), Eval('C = A[:]'), Eval('A = A'),
             Eval('C = A[:] + A[:]; D = C * C'),
